@@ -1,5 +1,6 @@
 SPECIFICATION Spec
 CONSTANTS
+  Tombstones = "none"
   Admission = TRUE
   Clusters = {"a", "b", "c"}
   Aliases = {"x", "y"}
